@@ -11,6 +11,7 @@ from sa.gi import IntSet, iv, GuardWalker, SymbolicAtomizer
 from sa.ex import EX
 from rules import netbind
 from rules.C18 import INFEASIBLE as PARSE_INFEASIBLE
+from sa.ex import attributed
 
 MSG = "pycoin/contrib/msg_signing.py"
 U, E = IntSet.all(), IntSet.empty()
@@ -32,7 +33,8 @@ def c17_1(ctx):
     f = ctx.func(MSG, "MessageSigner.verify_message")
     escs = ex.escapes(f)
     for e in escs:
-        why = INFEASIBLE.get((e.exc, e.func)) or next((w for (ent, exc, fn), w in PARSE_INFEASIBLE.items() if exc == e.exc and fn == e.func), None)
+        owner = attributed(ctx.p, e)        # code moved into a new helper keeps the disposition of the function it came from
+        why = INFEASIBLE.get((e.exc, owner)) or next((w for (ent, exc, fn), w in PARSE_INFEASIBLE.items() if exc == e.exc and fn == owner), None)
         ctx.check(why is not None, "escape:%s:%s" % (e.exc, e.func.split(".")[-1]), e.where,
                   "MessageSigner.verify_message can raise %s (from %s: `%s`, via %s): malformed or unrecoverable signature text must yield False"
                   % (e.exc, e.func.split(".", 1)[-1], e.what[:70], " -> ".join(v.split(".")[-1] for v in e.via[:6]) or "itself"),
